@@ -589,6 +589,21 @@ def zoo(tier='quick'):
     economy(p, 'AR', 'AAD', gov='none', firm='fm0', make_country=True, free_xr=False)
     gift(p, 'AR.HH', 'BB.HH', name='REMIT')
     Z.append(p)
+    # ... and a hand-wired gold buyer: the documented public call ext['GOLD'].SetGoldPurchases(...) made while the model is being declared,
+    # with another country of the same currency declared afterwards
+    p = two_zone('xz_gold_handwired_zone_grows', {}, {}, [lambda p: gift(p, 'AA.HH', 'BB.HH')])
+
+    def make_goldbuyer(c):
+        sec = Sector(c['AA'], c.nm('GOLDFUND'))
+        sec.AddVariable('GOLDPURCHASES', 'gold bought (local currency)', '2.0')
+        sec.SetExogenous('GOLDPURCHASES', '[2.0,]*%d' % EXO_LEN)
+        c['EXT']['GOLD'].SetGoldPurchases(sec, 'GOLDPURCHASES', 100.)
+        return sec
+    p.decl('AA.GOLDFUND', make_goldbuyer, needs=('EXT', 'AA'), group='AA')
+    economy(p, 'AR', 'AAD', gov='none', firm='fm0', make_country=True, free_xr=False)
+    gift(p, 'AR.HH', 'BB.HH', name='REMIT')
+    p.features.add('gold')
+    Z.append(p)
     p = two_zone('xz_goldcb_zone_grows', dict(gov='tre_goldcb'), dict(hh='hhexp'), [lambda p: gift(p, 'BB.HH', 'AA.HH')])
     economy(p, 'AR', 'AAD', gov='none', firm='fm0', make_country=True, free_xr=False)
     gift(p, 'AR.HH', 'BB.HH', name='REMIT')
